@@ -120,9 +120,27 @@ struct Sw<'a, B: SddBuilder<'a>> {
     hmap: Option<(rsdd::repr::WmcParams<rsdd::util::semirings::FiniteField<{ primes::U64_LARGEST }>>, Vec<(u128, u128)>)>,
     hash_memo: HashMap<TT, u128>,
     hash_checks: u64,
+    /// semantic builder: first pointer seen for each function, and the function seen before
+    sem_rep: HashMap<TT, SddPtr<'a>>,
+    sem_last: Option<TT>,
+    sem_eq_checks: u64,
 }
 
 impl<'a, B: SddBuilder<'a>> Sw<'a, B> {
+    /// builder-level statistics between operations (configurations with interleaved read-only
+    /// queries): their own answer is not compared, their effect on later answers is
+    fn builder_stats_query(&mut self) {
+        if self.cfg.issue % 2 == 1 {
+            let b = self.b;
+            if let Err(e) = guarded(|| {
+                let _ = b.stats();
+            }) {
+                self.viol(self.cfg.prop_fn(), "panic", format!("stats() panicked: {}", e), &SOp::Materialise(0));
+            }
+            self.rep.evaluations += 1;
+        }
+    }
+
     fn viol(&mut self, prop: &str, key: &str, what: String, op: &SOp) {
         let case = json!({"kind": "sdd_sweep", "cfg": self.cfg.json(), "op_number": self.opno, "op": format!("{:?}", op)});
         self.rep.violation(format!("{}:{}", prop, key), what, case);
@@ -278,11 +296,38 @@ impl<'a, B: SddBuilder<'a>> Sw<'a, B> {
             }
         }
         if self.cfg.semantic {
-            // the builder's equality must agree with function equality against the recorded
-            // representative of this function (never judge two equal functions different)
-            if let Some(&_old) = self.canon.get(&got) {
-                // representative pointer is stored in f_rep
+            // builder statistics directly after the operation, while the result's own hash memo
+            // is still empty (every one of the first 2000 operations of a configuration, every
+            // 64th afterwards; configurations with interleaved queries only)
+            if self.opno < 2000 || self.opno % 64 == 0 {
+                self.builder_stats_query();
             }
+            // the builder's equality must agree with function equality against the recorded
+            // representative of this function (never judge two equal functions different) and
+            // against the representative of the function seen before this one
+            let b = self.b;
+            let mut others: Vec<(TT, SddPtr<'a>)> = Vec::new();
+            if let Some(&old) = self.sem_rep.get(&got) {
+                others.push((got, old));
+            }
+            if let Some(l) = self.sem_last {
+                if l != got {
+                    others.push((l, self.sem_rep[&l]));
+                }
+            }
+            for (t, q) in others {
+                self.sem_eq_checks += 1;
+                match guarded(|| b.eq(r, q)) {
+                    Ok(e) => {
+                        if e != (t == got) {
+                            self.viol("C11", "eq-disagrees-with-function", format!("{:?} [{}]: eq(result denoting {:#x}, earlier diagram denoting {:#x}) = {}", op, self.cfg.json(), got, t, e), op);
+                        }
+                    }
+                    Err(p) => self.viol("C11", "panic", format!("{:?}: eq panicked: {}", op, p), op),
+                }
+            }
+            self.sem_rep.entry(got).or_insert(r);
+            self.sem_last = Some(got);
         }
         if !self.cfg.semantic && self.cfg.compress {
             match self.canon.get(&got) {
@@ -318,6 +363,7 @@ impl<'a, B: SddBuilder<'a>> Sw<'a, B> {
     }
 
     fn recheck_pool(&mut self) {
+        self.builder_stats_query();
         let pf = self.cfg.prop_fn();
         for k in 0..self.mat.len() {
             let t = self.mat[k];
@@ -500,6 +546,9 @@ fn sweep<'a, B: SddBuilder<'a>>(b: &'a B, cfg: &SCfg, ctx: &Ctx) -> Report {
         },
         hash_memo: HashMap::new(),
         hash_checks: 0,
+        sem_rep: HashMap::new(),
+        sem_last: None,
+        sem_eq_checks: 0,
     };
     s.rep.exhaustive = true;
     s.canon.insert(tt::mask(n), (0, 0, false));
@@ -741,6 +790,7 @@ fn sweep<'a, B: SddBuilder<'a>>(b: &'a B, cfg: &SCfg, ctx: &Ctx) -> Report {
     rep.add_extra("apply_case_descendant_b", s.cases[2]);
     rep.add_extra("apply_case_independent", s.cases[3]);
     rep.add_extra("semantic_hash_checks", s.hash_checks);
+    rep.add_extra("semantic_eq_checks_on_results", s.sem_eq_checks);
     rep.add_extra("configurations", 1);
     rep
 }
